@@ -164,7 +164,6 @@ func (c *converter) ProgramEnd() error {
 	if c.sliceCopyHelperRequired {
 		c.sliceLenGetHelperRequired = true
 		c.sliceLenSetHelperRequired = true
-		c.sliceAssignmentHelperRequired = true
 
 		// %1: Destination slice
 		// %2: Source slice
